@@ -26,7 +26,7 @@ type eventSpec struct {
 }
 
 // shapes: valid ones first; "bad-*", "unknown", "nullname" are stored as sys.Error; "corrupted" as sys.Corrupted
-var validShapes = []string{"none", "order", "odocname", "secret", "cudnew", "cudupd", "cuddeact", "sync-order", "sync-cud"}
+var validShapes = []string{"none", "order", "order-empties", "odocname", "secret", "cudnew", "cudupd", "cuddeact", "sync-order", "sync-cud"}
 var invalidShapes = []string{"bad-order", "bad-field", "bad-secret", "unknown", "nullname", "corrupted"}
 
 // probe shapes (corpus only): "corrupted-big" = sys.Corrupted with 70000 original bytes (a row too large
@@ -78,17 +78,27 @@ func eventBytes(seed uint64) []byte {
 	return b
 }
 
-func fillOrder(o istructs.IObjectBuilder, seed uint64, base istructs.RecordID, omitN bool) {
+// putStr / putBytes: an empty value leaves an "emptied" mark on the builder's row which argument objects do
+// not store (C02-F8): only the shape "order-empties" puts empty values into an argument
+func putStr(o istructs.IRowWriter, name, s string, empties bool) {
+	if s != "" || empties {
+		o.PutString(name, s)
+	}
+}
+
+func putBytes(o istructs.IRowWriter, name string, b []byte, empties bool) {
+	if len(b) > 0 || empties {
+		o.PutBytes(name, b)
+	}
+}
+
+func fillOrder(o istructs.IObjectBuilder, seed uint64, base istructs.RecordID, omitN, empties bool) {
 	o.PutRecordID(appdef.SystemField_ID, base)
 	if !omitN {
 		o.PutInt32("n", int32(seed%100000))
 	}
-	if s := strOf(seed, 0); s != "" || seed%2 == 0 {
-		o.PutString("note", s)
-	}
-	if b := bytesOf(seed, 0); len(b) > 0 || seed%3 == 0 {
-		o.PutBytes("blob", b)
-	}
+	putStr(o, "note", strOf(seed, 0), empties && seed%2 == 0)
+	putBytes(o, "blob", bytesOf(seed, 0), empties && seed%3 == 0)
 	if seed%4 == 1 {
 		o.PutFloat64("f", float64(seed)/8)
 		o.PutBool("b", true)
@@ -106,7 +116,7 @@ func fillOrder(o istructs.IObjectBuilder, seed uint64, base istructs.RecordID, o
 		id++
 		it.PutInt32("qty", int32(i)+int32(seed%9))
 		if i%2 == 0 {
-			it.PutString("name", strOf(seed, i+1))
+			putStr(it, "name", strOf(seed, i+1), empties)
 			it.PutRecordID("ref", base)
 		}
 		subs := int((seed/4 + uint64(i)) % 3)
@@ -114,7 +124,7 @@ func fillOrder(o istructs.IObjectBuilder, seed uint64, base istructs.RecordID, o
 			sb := it.ChildBuilder("subs")
 			sb.PutRecordID(appdef.SystemField_ID, id)
 			id++
-			sb.PutString("tag", strOf(seed, i+j+2))
+			putStr(sb, "tag", strOf(seed, i+j+2), empties)
 			if j == 1 {
 				sb.PutInt64("w", int64(itemID)*1000003)
 			}
@@ -123,14 +133,14 @@ func fillOrder(o istructs.IObjectBuilder, seed uint64, base istructs.RecordID, o
 }
 
 func fillParams(o istructs.IObjectBuilder, seed uint64, bad bool) {
-	o.PutString("title", strOf(seed, 1))
+	putStr(o, "title", strOf(seed, 1), false)
 	o.PutInt32("x", int32(seed%77))
 	if bad {
 		o.PutInt32("nosuchfield", 1)
 	}
 	for i := 0; i < int(seed%3); i++ {
 		p := o.ChildBuilder("parts")
-		p.PutString("k", strOf(seed, i))
+		putStr(p, "k", strOf(seed, i), false)
 		p.PutInt64("v", int64(seed)<<uint(i))
 	}
 }
@@ -143,10 +153,10 @@ type baseDoc struct{ doc, rec istructs.RecordID }
 func (r *rig) build(s eventSpec, bases map[uint64]*baseDoc) (istructs.IRawEvent, error, error) {
 	seed := s.Seed
 	name := map[string]appdef.QName{
-		"none": cmdNone, "order": cmdOrder, "odocname": qnOrder, "secret": cmdSecret, "cudnew": istructs.QNameCommandCUD,
+		"none": cmdNone, "order": cmdOrder, "order-empties": cmdOrder, "odocname": qnOrder, "secret": cmdSecret, "cudnew": istructs.QNameCommandCUD,
 		"cudupd": istructs.QNameCommandCUD, "cuddeact": istructs.QNameCommandCUD, "sync-order": cmdOrder, "sync-cud": istructs.QNameCommandCUD,
 		"bad-order": cmdOrder, "bad-field": cmdNone, "bad-secret": cmdSecret, "unknown": qnUnknown, "nullname": appdef.NullQName,
-		"corrupted": istructs.QNameForCorruptedData, "corrupted-big": istructs.QNameForCorruptedData, "unknown-long": appdef.NewQName("test", strings.Repeat("x", 70000)), "unknown-dotted": appdef.NewQName("test", "a.b"),
+		"corrupted": istructs.QNameForCorruptedData, "corrupted-big": istructs.QNameForCorruptedData, "unknown-long": appdef.NewQName("test", strings.Repeat("x", 70000)), "unknown-dotted": appdef.NewQName("test", "a.b"), "unknown-dotted-pkg": appdef.NewQName("a.b", "c"),
 	}[s.Shape]
 	evBytes := eventBytes(seed)
 	if s.Shape == "corrupted-big" {
@@ -168,18 +178,18 @@ func (r *rig) build(s eventSpec, bases map[uint64]*baseDoc) (istructs.IRawEvent,
 		bld = r.app.Events().GetNewRawEventBuilder(istructs.NewRawEventBuilderParams{GenericRawEventBuilderParams: gp})
 	}
 	switch s.Shape {
-	case "none", "unknown", "nullname", "corrupted", "corrupted-big", "unknown-long", "unknown-dotted":
-	case "order", "odocname":
-		fillOrder(bld.ArgumentObjectBuilder(), seed, 1, false)
+	case "none", "unknown", "nullname", "corrupted", "corrupted-big", "unknown-long", "unknown-dotted", "unknown-dotted-pkg":
+	case "order", "odocname", "order-empties":
+		fillOrder(bld.ArgumentObjectBuilder(), seed, 1, false, s.Shape == "order-empties")
 		if seed%5 == 2 { // an order that also creates a document
 			d := bld.CUDBuilder().Create(qnWDoc)
 			d.PutRecordID(appdef.SystemField_ID, 60)
 			d.PutInt64("cnt", int64(seed))
 		}
 	case "sync-order":
-		fillOrder(bld.ArgumentObjectBuilder(), seed, istructs.RecordID(1<<40+seed*64), false)
+		fillOrder(bld.ArgumentObjectBuilder(), seed, istructs.RecordID(1<<40+seed*64), false, false)
 	case "bad-order":
-		fillOrder(bld.ArgumentObjectBuilder(), seed, 1, true)
+		fillOrder(bld.ArgumentObjectBuilder(), seed, 1, true, false)
 	case "bad-field":
 		bld.CUDBuilder().Create(qnDoc).PutInt32("nosuchfield", 1)
 	case "secret", "bad-secret":
@@ -433,12 +443,14 @@ func (d *dumper) row(rr istructs.IRowReader, q appdef.QName, keepEmpty bool) row
 
 func rowCoq(rd rowDump, mark bool) string { return strings.Replace(rd.coq, "MARK", kit.Bool(mark), 1) }
 
-func (d *dumper) object(o istructs.IObject) (text, coq string) {
-	rd := d.row(o, o.QName(), false)
+// keepEmpty: list string/bytes fields that were put empty (SpecifiedValues shows them on the builder's
+// object; argument objects are stored without such marks)
+func (d *dumper) object(o istructs.IObject, keepEmpty bool) (text, coq string) {
+	rd := d.row(o, o.QName(), keepEmpty)
 	var texts, coqs []string
 	if o.QName() != appdef.NullQName {
 		for c := range o.Children() {
-			t, c := d.object(c)
+			t, c := d.object(c, keepEmpty)
 			texts = append(texts, t)
 			coqs = append(coqs, c)
 		}
@@ -510,8 +522,8 @@ func (r *rig) dump(ev istructs.IDbEvent) (res eventDump, err error) {
 	errStr, errName := "", ""
 	var errBytes []byte
 	errT, errStoredT := "", ""
-	cutName := ""
-	undecodable := false
+	cutName, origStoredT := "", ""
+	undecodable, nameResplit := false, false
 	if !valid {
 		errStr, errName = e.ErrStr(), e.QNameFromParams().String()
 		if !hasUnl { // original bytes are deliberately not logged when the command has an unlogged argument
@@ -525,12 +537,20 @@ func (r *rig) dump(ev istructs.IDbEvent) (res eventDump, err error) {
 		if len(cutName) >= shortStringMax {
 			cutName = cutName[:shortStringMax]
 		}
-		errT = fmt.Sprintf(" err=%q orig=%s bytes=%x", errStr, errName, errBytes)
-		errStoredT = fmt.Sprintf(" err=%q orig=%s bytes=%x", cut, cutName, errBytes)
+		// the original name is stored as text and split again at the (first) dot when read
+		sp, se, _ := strings.Cut(cutName, appdef.QNameQualifierChar)
+		origT := fmt.Sprintf("%q|%q", e.QNameFromParams().Pkg(), e.QNameFromParams().Entity())
+		origStoredT = fmt.Sprintf("%q|%q", sp, se)
+		nameResplit = origT != origStoredT && len(errName) < shortStringMax
+		errT = fmt.Sprintf(" err=%q orig=%s bytes=%x", errStr, origT, errBytes)
+		errStoredT = fmt.Sprintf(" err=%q orig=%s bytes=%x", cut, origStoredT, errBytes)
 	}
-	argT, argC := d.object(ev.ArgumentObject())
+	argT, argC := d.object(ev.ArgumentObject(), true)
+	argStoredT, _ := d.object(ev.ArgumentObject(), false)
+	unlStoredT := nullT
 	if hasUnl {
-		unlT, unlC = d.object(unl)
+		unlT, unlC = d.object(unl, true)
+		unlStoredT, _ = d.object(unl, false)
 	}
 	type upd struct {
 		id        uint64
@@ -559,23 +579,26 @@ func (r *rig) dump(ev istructs.IDbEvent) (res eventDump, err error) {
 	}
 	body := fmt.Sprintf(" arg=%s unl=%s cuds=%s", argT, unlT, strings.Join(cudTexts, ","))
 	text := head + errT + body
-	stored := text
+	stored := head + errT + fmt.Sprintf(" arg=%s unl=%s cuds=%s", argStoredT, unlStoredT, strings.Join(cudTexts, ","))
 	cause := ""
+	if valid && stored != text {
+		cause = "F8" // emptied-field marks of argument objects are not stored
+	}
 	if !valid {
 		stored = head + errStoredT + fmt.Sprintf(" arg=%s unl=%s cuds=", nullT, nullT)
 		var cs []string
 		if argT != nullT || unlT != nullT || len(cudTexts) > 0 {
 			cs = append(cs, "F4")
 		}
-		if len(errStr) >= shortStringMax {
+		if len(errStr) >= shortStringMax || len(errName) >= shortStringMax {
 			cs = append(cs, "F6")
 		}
-		cause = strings.Join(cs, "+")
-		if strings.Count(cutName, ".") != 1 {
-			// loadEventBuildError parses the original name with ParseQName (exactly one dot)
-			undecodable = true
-			cause = "F7"
+		if nameResplit {
+			cs = append(cs, "F7b")
 		}
+		cause = strings.Join(cs, "+")
+		// appdef.ParseQName wants exactly one dot: whether the stored row decodes is asked from the real decoder
+		undecodable = strings.Count(cutName, ".") != 1
 	}
 	syncPart := "0 0"
 	if ev.Synced() {
